@@ -360,8 +360,15 @@ def execute(plan, inst, keep_log=False):
         expected = [outcome(lambda t=t: m(t, **kw)) for t in texts]
         cov(method, path, fired_before)
         log.add("call", method, op["pattern"], path, kw, actual[0], actual[1] if actual[0] == "exc" else _dig(actual[1]))
-        if actual[0] == "exc" and actual[2] and hard:
+        if actual[0] == "exc" and hard:
+            # narrow relaxation: while an injected hard I/O fault fired, the call may fail (with OSError or whatever the
+            # library turns it into) - it may never return a wrong value
             stats["hard_fault_raised"] += 1
+            return
+        if actual[0] == "exc" and actual[1] == "InterruptedError" and "EINTR" in fs.fault_fired:
+            # EINTR is injected at the raw layer, where real file objects retry in C; a reader that works on the raw
+            # object directly would see it only in simulation - not judged
+            stats["eintr_propagated"] = stats.get("eintr_propagated", 0) + 1
             return
         if hard and actual[0] == "ok":
             stats["hard_fault_returned"] += 1
@@ -436,8 +443,11 @@ def execute(plan, inst, keep_log=False):
     def verify_handle(h):
         p = pats[h.pid]
         m = getattr(p, h.method)
-        if h.exc and h.exc[1] and h.hard:
+        if h.exc and h.hard:
             stats["hard_fault_raised"] += 1
+            return
+        if h.exc and h.exc[0] == "InterruptedError" and "EINTR" in fs.fault_fired:
+            stats["eintr_propagated"] = stats.get("eintr_propagated", 0) + 1
             return
         versions = history[h.path][h.hist_idx:]
         if h.exc and h.exc[1] and not h.hard and valid_utf8(h.path, versions):
@@ -479,6 +489,7 @@ def execute(plan, inst, keep_log=False):
         step_no[0] += 1
         kind = op["op"]
         fs.now += op.get("dt", 0)
+        stats["sim_clock_seconds"] = stats.get("sim_clock_seconds", 0) + op.get("dt", 0)
         if last_task[0] is not None and last_task[0] != t and any(
                 (not h.done) and h.first_advanced_step is not None for h in handles.values()):
             stats["inflight_interleavings"] += 1
@@ -651,7 +662,8 @@ EVIDENCE = {
         "sampling: a clean batch is evidence, not proof",
         "reference text = independent TextIOWrapper(BytesIO(data), encoding='utf-8').read(); for content with CR or a BOM the "
         "untranslated / BOM-stripped readings are accepted as well",
-        "under EIO/ENOENT/EACCES/EISDIR a call may raise OSError; a returned value must still equal the fault-free value",
+        "while an injected EIO/ENOENT/EACCES/EISDIR fired a call may raise (any exception); a returned value must still equal the "
+        "fault-free value; an InterruptedError that reaches the caller is not judged (real raw files retry EINTR in C)",
         "generators may read the file at creation or at first next(); any version current in between is accepted",
         "file access other than open()/io.open()/os.stat on the path escapes fault injection (reported as harness error)",
         "calls on a file that is not valid UTF-8 are executed but not judged (the property is about UTF-8 files); calls after them are",
